@@ -34,7 +34,7 @@ def spec_kind(sp):
         return 0
     if sp.__class__ is tagmap.TagMap:
         return 3
-    if isinstance(sp, univ.Any):          # ANY, tagged or not, has a tag map with a default: any tag selects it
+    if isinstance(sp, univ.Any) and not len(sp.tagSet):      # an untagged ANY stands for whatever tag comes
         return 2
     return 1 if len(sp.tagSet) else 2
 
